@@ -14,7 +14,7 @@ Section SInd.
   Hypothesis Hbreak : forall l, P (SBreak l).
   Hypothesis Hcont : forall l, P (SContinue l).
   Hypothesis Hret : P SReturn.
-  Hypothesis Htry : P STry.
+  Hypothesis Htry : forall k, P (STry k).
   Hypothesis Hblock : forall l b, Forall P b -> P (SBlock l b).
   Hypothesis Hloop : forall l c b, Forall P b -> P (SLoop l c b).
   Hypothesis Hif : forall a b, Forall P a -> Forall P b -> P (SIf a b).
@@ -31,7 +31,7 @@ Section SInd.
     | SBreak l => Hbreak l
     | SContinue l => Hcont l
     | SReturn => Hret
-    | STry => Htry
+    | STry k => Htry k
     | SBlock l b => Hblock l b (go b)
     | SLoop l c b => Hloop l c b (go b)
     | SIf a b => Hif a b (go a) (go b)
@@ -323,7 +323,7 @@ Proof.
   - (* try *)
     cbn [lower] in Hc. inversion Hc; subst.
     assert (exists id, resolve_first E = Some id) as [id R].
-    { destruct E as [|k E']; [congruence|]. clear. revert k. induction E' as [|k' r IH]; intros k; cbn; eauto. }
+    { destruct E as [|k0 E']; [congruence|]. clear. revert k0. induction E' as [|k' r IH]; intros k0; cbn; eauto. }
     rewrite R. cbn. destruct (next o) as [c0 o0]. destruct c0; cbn; repeat split; eauto.
   - (* block *)
     cbn [lower] in Hc. set (id0 := N.of_nat (length E)) in *.
